@@ -77,10 +77,13 @@ package labelmap
 
 //@ guarded Data.MaxLabel, Data.MaxRepoLabel, Data.NextLabel by mlMu
 
+// Ghosts vdirty / rdirty (C03: maximum labels rebuilt at start-up equal the live ones): set where the
+// in-memory per-version / repo-wide maximum is changed, cleared once persistMaxLabel / persistMaxRepoLabel
+// has been called for it; both are clear wherever the trackers return without error.
 // Ghost gmax: the largest label this instance's max-label tracker has been told about or has issued
 // (a history variable: raised at the entry of updateMaxLabel and where newLabel picks its result).
 //@ func Data.updateMaxLabel
-//@   prop C12 C11
+//@   prop C12 C11 C03
 //@   requires d != nil && d.MaxLabel != nil
 //@   ghost gmax uint64 = arbitrary()
 //@   ghostset at "d.mlMu.RLock()": gmax = ite(gmax >= label, gmax, label)
@@ -95,9 +98,16 @@ package labelmap
 //@   assert at "d.MaxLabel[v] = label": !has(d.MaxLabel, v) || d.MaxLabel[v] < label
 //@   assert at "d.MaxRepoLabel = label": d.MaxRepoLabel < label
 //@   modifies ghost gmax
+//@   ghost vdirty bool = false
+//@   ghost rdirty bool = false
+//@   ghostset at "d.MaxLabel[v] = label": vdirty = true
+//@   ghostset after "if err = d.persistMaxLabel(v); err != nil {": vdirty = false
+//@   ghostset at "d.MaxRepoLabel = label": rdirty = true
+//@   ghostset after "if err = d.persistMaxRepoLabel(); err != nil {": rdirty = false
+//@   ensures err == nil ==> !vdirty && !rdirty
 
 //@ func Data.updateBlockMaxLabel
-//@   prop C12 C11
+//@   prop C12 C11 C03
 //@   requires d != nil && d.MaxLabel != nil && block != nil
 //@   go_summary
 //@   ghost gmax uint64 = arbitrary()
@@ -112,6 +122,13 @@ package labelmap
 //@   modifies *
 //@   assert at "d.MaxLabel[v] = curMax": !has(d.MaxLabel, v) || d.MaxLabel[v] < curMax
 //@   assert at "d.MaxRepoLabel = curMax": d.MaxRepoLabel < curMax
+//@   ghost vdirty bool = false
+//@   ghost rdirty bool = false
+//@   ghostset at "d.MaxLabel[v] = curMax": vdirty = true
+//@   ghostset after "if err := d.persistMaxLabel(v); err != nil {": vdirty = false
+//@   ghostset at "d.MaxRepoLabel = curMax": rdirty = true
+//@   ghostset after "if err := d.persistMaxRepoLabel(); err != nil {": rdirty = false
+//@   assert at "d.mlMu.Unlock()": !vdirty && !rdirty
 
 // newLabel / newLabels: the labels handed out lie strictly above the maximum recorded when the mutex was
 // taken, and the recorded maximum is raised to cover them in the same critical section.
